@@ -323,7 +323,7 @@ def r9_4(ctx):
             r = cu.strip_casts(f, f.kid(a, 1))
             if r is not None and r['k'] == 'member' and '*' in (r.get('t') or ''):
                 root, path = cu.member_path(f, r)
-                if root is not None and root.get('name') == 'external':
+                if root is not None and 'YR_EXTERNAL_VARIABLE' in (root.get('t') or ''):
                     l = f.kid(a, 0)
                     if l is not None and l['k'] == 'member':
                         bad.append(a)
